@@ -14,15 +14,49 @@ Variants of the same scenario:
     with a threshold of 0 no earlier upload can satisfy "fewer than 0 other images" / "no more than 0 bytes (the
     image itself included)" / "no more than 0 seconds", so every upload() must transmit and needs_uploading() must
     stay True; the retention judgement `printok` then runs with the default thresholds (Spec.printOk with
-    maxUploads = 0 is constantly false)."""
+    maxUploads = 0 is constantly false).
+  * step {"op": "wait", "us": n}: the clock advances by n microseconds between two requests (reupload_max_seconds_ago
+    configured as 1 / 60 / 3600 or left at its default).  `printok` carries the age clause (a terminal keeps an image no
+    longer than the configured time), so a request made after more than the configured time must transmit again; and (C04:
+    "when all of that holds it does not ask for a re-upload") a request that repeats the previous one on the same terminal
+    with nothing but waits shorter than the configured time since its transmission must transmit nothing.
+  * "force": true / false on a request = the per-call `force_upload` argument; "force_upload" in c["config"] = the configured
+    one (a per-call false then asks for the ordinary, record-driven behaviour).  A forced upload is an upload like any other:
+    it goes to the terminal that is attached NOW, and afterwards every terminal is still judged by what it received.
+  * tmux that cannot be reached: step {"op": "tmux", "mode": "silent" | "fail" | "blank" | "ok"} (for every client),
+    tm["mode"] (from the start, i.e. already when the object is created) or clients[w]["reach"] (for one client): the fake
+    `tmux display-message` then prints nothing and exits 0 / prints tmux's "error connecting to ..." on stderr and exits 1 /
+    prints an empty line.  The library cannot know which terminal it is talking to; a call that REFUSES to work (raises) is
+    tolerated there and counted, what it wrote before raising still arrives at the current terminal, and whatever is printed
+    (by a refusing call or by one that carried on) is judged as always: a placeholder only for an image that terminal holds."""
 from __future__ import annotations
 
+import datetime as _dt
 import os
 import shutil
 import tempfile
 
 from . import e2e_util as U
-from .c08 import SpecTerminal, Clock, _make_pool, _expected_token, tty
+from .c08 import SpecTerminal, Clock, _make_pool, _expected_token, tty, decode_placeholders, PLACEHOLDER
+
+AGE_GUARD_US = 50_000        # the harness reads the clock after a call, the library inside it (1 ms per reading)
+
+
+def _write_modal_fake_tmux(bin_dir) -> str:
+    """the environment-driven fake tmux of harness/ptyhost.py behind a reachability switch (FAKE_TMUX_MODE)"""
+    from .ptyhost import FAKE_TMUX_ENV
+    shebang, body = FAKE_TMUX_ENV.split("\n", 1)
+    prelude = ('case "$FAKE_TMUX_MODE" in\n'
+               '  silent) exit 0;;\n'
+               '  blank) echo; exit 0;;\n'
+               '  fail) echo "error connecting to /tmp/tmux-1000/default (No such file or directory)" >&2; exit 1;;\n'
+               'esac\n')
+    os.makedirs(str(bin_dir), exist_ok=True)
+    path = os.path.join(str(bin_dir), "tmux")
+    with open(path, "w") as f:
+        f.write(shebang + "\n" + prelude + body)
+    os.chmod(path, 0o755)
+    return path
 
 
 def check_terminal_switch(ctx, c: dict, prop: str):
